@@ -1,9 +1,10 @@
 import SSVerif.Model.Jsgf
+import SSVerif.Model.JsgfText
 import Driver.Util
 /-! driver sub-command `c05`: desugaring, accept/refuse decision, exploration and verified
 language comparison for JSGF grammars (line protocol, see tools/props/c05.py) -/
 namespace Driver.C05
-open SSVerif.Jsgf SSVerif.Nfa Driver
+open SSVerif.Jsgf SSVerif.JsgfText SSVerif.Nfa Driver
 
 /-! ### reading a surface grammar (prefix token stream) -/
 
@@ -145,23 +146,43 @@ def step (s : St) (ws : List String) : St × String :=
       let T := desugar g
       ({ g, T, ex := none }, s!"table {showB (tableMatches T g)} {showB (namesDistinct g)} | {showTable T}")
     | none => (s, "bad-grammar")
+  | ["text", hex] =>
+    -- the text front end of the model on a byte string
+    match parseHex hex with
+    | none => (s, "bad-op")
+    | some bytes =>
+      let cs := bytes.map fun b => Char.ofNat b.toNat
+      match parseText cs with
+      | none => ({ g := [], T := [], ex := none }, "reject")
+      | some tg =>
+        let (g, N) := resolve tg
+        let T := desugar g
+        let hx := fun (l : List Char) => toHex (l.map fun c => UInt8.ofNat c.toNat)
+        ({ g, T, ex := none },
+         s!"tparse {hx tg.name} R={sepBy "," (N.rules.map hx)} W={sepBy "," (N.words.map hx)} I={tg.imports.length} | {showTable T}")
+  | ["lex", hex] =>
+    match parseHex hex with
+    | none => (s, "bad-op")
+    | some bytes =>
+      let cs := bytes.map fun b => Char.ofNat b.toNat
+      (s, s!"lex {repr (lex cs)}".replace "\n" " ")
   | ["norm"] => (s, s!"ntable | {showTable (s.T.map normaliseRule)}")
   | ["rep", top, fuel] =>
     match parseName top, parseNat fuel with
     | some top, some fuel =>
-      if !representable s.T top then
-        (s, s!"rep 0 {showB (s.T.defined top)} forms skipped lasthop {showB (representableLastHop s.T top)}") else
+      if !(buildRaw s.T top).isSome then
+        (s, s!"rep 0 {showB (s.T.defined top)} forms skipped lasthop {showB (representableLastHop s.T top && !representable s.T top)}") else
       let (s', r) := getExplore s top fuel
       let forms := match r with
         | some A => toString ((A.arcs.map fun (a : Nat × Option Nat × Nat) => a.1) ++
             (A.arcs.map fun (a : Nat × Option Nat × Nat) => a.2.2) ++ [A.start, A.final]).eraseDups.length
         | none => "none"
-      (s', s!"rep {showB (representable s.T top)} {showB (s.T.defined top)} forms {forms} lasthop 1")
+      (s', s!"rep 1 {showB (s.T.defined top)} forms {forms} lasthop 1")
     | _, _ => (s, "bad-op")
   | "cmp" :: top :: fuel :: maxp :: nst :: st :: fin :: arcs =>
     match parseName top, parseNat fuel, parseNat maxp, parseNat nst, parseNat st, parseNat fin, arcs.mapM parseArc with
     | some top, some fuel, some maxp, some _, some st, some fin, some arcs =>
-      if !representable s.T top then (s, "notrep") else
+      if !(buildRaw s.T top).isSome then (s, "notrep") else
       let (s', r) := getExplore s top fuel
       match r with
       | none => (s', "noexplore")
@@ -175,7 +196,7 @@ def step (s : St) (ws : List String) : St × String :=
   | ["expand", top] =>
     match parseName top with
     | some top =>
-      match expandTop s.T top with
+      match buildRaw s.T top with
       | none => (s, "xnone")
       | some st =>
         let arcs := st.links.map fun l =>
